@@ -3,4 +3,5 @@ let () =
   | [| _; "heap" |] -> Heap_driver.run ()
   | [| _; "motion" |] -> Motion_driver.run ()
   | [| _; "ptc" |] -> Ptc_driver.run ()
+  | [| _; "seed" |] -> Seed_driver.run ()
   | _ -> prerr_endline "usage: ompl_model <heap|...>"; exit 2
